@@ -12,7 +12,24 @@ RULE = ("kinds: ctor (random rows, arity 1-3, names incl. '' / non-ASCII / the c
         "construct a random sub-list of its rows with the superset's own mappings), corrupt (supplied mapping with a gap, "
         "a missing key, a non-integer dtype, shifted ids), valid_ids (numpy_array_is_0_indexed_integers on random id arrays). "
         "Non-trivial: at least 2 rows; distinct by canonical description.")
-THEOREMS = {}
+THEOREMS = {
+    "C01_sentinel_from_source": "the model's sentinel is the CONTROL_SENTINEL_VALUE read from /repo on this run",
+    "C01_decode_treatments": "stored treatment ids = mapping lookup of each experiment's (name, dose); that pair is a mapping row",
+    "C01_decode_samples": "same for sample ids", "C01_decode_plates": "same for plate ids",
+    "C01_control_iff": "sentinel iff name = control name or dose <= 0 (no supplied mapping)",
+    "C01_treatment_ids_dense": "non-control ids in use are exactly 0..space size-1",
+    "C01_treatment_ids_injective": "equal non-control ids iff equal (name, dose)",
+    "C01_sample_ids_dense": "sample ids in use are exactly 0..n_unique_samples-1", "C01_sample_ids_injective": "equal iff same name",
+    "C01_plate_ids_dense": "plate ids are exactly 0..#plates-1", "C01_plate_ids_injective": "equal iff same name",
+    "C01_supplied_verbatim": "a supplied treatment mapping becomes the screen's mapping unchanged (and is dense)",
+    "C01_supplied_samples_verbatim": "same for sample mapping",
+    "C01_supplied_not_dense_rejected": "non-dense / non-integer supplied mapping => Err",
+    "C01_supplied_uncovered_rejected": "supplied mapping missing a key of the data => never Ok",
+    "C01_zero_indexed_spec": "numpy_array_is_0_indexed_integers characterised",
+    "C01_superset_stable": "a screen's own mappings are accepted back unchanged on any rows they cover",
+    "C01_treatment_ids_bounded": "every treatment id < ExperimentSpace.n_unique_treatments",
+    "C01_sample_ids_bounded": "every sample id < n_unique_samples", "C01_sample_ids_bounded_supplied": "same with a key-unique supplied mapping",
+}
 ASSUMPTIONS = [
     "doses cross the wire as order keys (common.float_key): an order isomorphism on finite doubles identifying -0.0 and 0.0, "
     "as pandas drop_duplicates/merge do; NaN doses are outside the quantifier",
